@@ -11,7 +11,7 @@
 // op lines                                           answers
 //
 //	reload gc=.. early=.. order=.. q<i>=.. [f<i>=..]   the configuration loaded again (same or changed) into the same process
-//	cfg t0=<ns> gc=<sec|-> early=<0|1> order=<i,j,..> q0=c,<max>,<expSec|->,<parent|-> q1=f ...   ok | err:init
+//	cfg t0=<ns> gc=<sec|-> early=<0|1> [mod=<k>] order=<i,j,..> q0=c,<max>,<expSec|->,<parent|-> q1=f ...   ok | err:init
 //	req r=<id> m=<G|P>                               v=<a|r|e> c=<n0,n1,..>    (a admitted, r refused 429, e answered early 200)
 //	resp r=<id>                                      ok c=<..>
 //	err r=<id>                                       ok c=<..>                  (Stream.OnError)
@@ -62,6 +62,14 @@ func parseCfg(w []string) (caseCfg, bool) {
 		return c, false
 	}
 	c.early = ev != 0
+	if _, has := proto.KV(w, "mod"); has {
+		// a request-rewriting processor after the first <mod> limiters of the admitted path
+		k, ok := kvI(w, "mod")
+		if !ok || k < 0 {
+			return c, false
+		}
+		c.modAt = int(k) + 1
+	}
 	for i := 0; ; i++ {
 		s, ok := proto.KV(w, fmt.Sprintf("q%d", i))
 		if !ok {
@@ -125,6 +133,9 @@ func parseCfg(w []string) (caseCfg, bool) {
 		}
 		seen[q] = true
 		c.order = append(c.order, q)
+	}
+	if c.modAt > len(c.order)+1 {
+		return c, false
 	}
 	return c, true
 }
@@ -229,6 +240,9 @@ func exec(c proto.Case, o *proto.Out) []string {
 			v := e.request(id, m == "P", path, hdr)
 			outs[i] = "v=" + v + " " + e.obs()
 			o.Count("req-" + v)
+			if e.rewrote {
+				o.Count("req-rewritten-" + v)
+			}
 			if v == "a" {
 				admitted = true
 			}
